@@ -26,6 +26,8 @@ def init():
 def gen(rng, tier, index):
     if index % 3 == 2:
         return gen_tzx.gen_custom(rng, tier, index)
+    if index % 3 == 1:
+        return gen_tzx.gen_profiler(rng, tier, index)
     # a bin2tap tape (C12's generator), sized for real-time loading
     while True:
         scn = p12.gen(rng, 'quick', index)
@@ -125,6 +127,8 @@ def _run(scn, res, wd):
             skip = set(range(scn['stack'] - 14, scn['stack'])) if scn['kind'] == '48' else set()
             if 'loader_range' in exp:
                 skip |= set(range(*exp['loader_range']))
+        elif scn['source'] == 'profiler':
+            tape, start, machine, ranges, skip = gen_tzx.build_profiler(scn, wd)
         else:
             tape, start, machine, ranges, skip = gen_tzx.build(scn, wd)
     except tapeload.ToolError as e:
@@ -203,7 +207,7 @@ def _run(scn, res, wd):
                 d = _diff(ref, got, ('reg.PC', 'reg.SP'))
                 if d:
                     return fail(res, 'C13/weak/%s' % d[0][0], 'configuration [%s]: %s' % (_cfgstr(v), d))
-            res['sigs'].append('%s|%s|%s' % (scn['source'] + ':' + str(scn['loader'] if scn['source'] == 'custom' else scn.get('kind', '')), machine, _cfgstr({k: v[k] for k in v if k != 'order'})))
+            res['sigs'].append('%s|%s|%s' % (scn['source'] + ':' + str(scn['loader'] if scn['source'] == 'custom' else scn.get('family', scn.get('kind', ''))), machine, _cfgstr({k: v[k] for k in v if k != 'order'})))
     except tapeload.ToolError as e:
         return fail(res, 'C13/tool-error', str(e))
     res['digest'] = h.hexdigest()
@@ -234,7 +238,7 @@ def shrink_candidates(scn):
                     if c['kind'] == '48clear' and c['start'] >= c['org'] + m:
                         c['start'] = c['org']
                     yield c
-    else:
+    elif scn['source'] == 'custom':
         for c in gen_tzx.shrink_candidates(scn):
             yield c
     for k, d in (('polarity', 0), ('first-edge', 0), ('finish-tape', 0)):
